@@ -80,16 +80,17 @@ theorem held_only_decreases (s s' : St) (a : Act) (ans : Ans) (hs : step s a = s
       | u0 => simp only at hs; split at hs <;> simp at hs <;> rw [← hs.1] <;> exact hh
       | u1 => simp only [hh] at hs; simp at hs; rw [← hs.1]
       | u2 => simp only at hs; simp at hs; rw [← hs.1]; exact hh
+      | u2f => simp only at hs; simp at hs; rw [← hs.1]; exact hh
   | renew => simp only [step] at hs; split at hs <;> simp at hs <;> rw [← hs.1] <;> exact hh
   | fire => simp only [step] at hs; split at hs <;> simp at hs; rw [← hs.1]; exact hh
   | cbStep => simp only [step] at hs; split at hs <;> simp at hs <;> rw [← hs.1] <;> first | rfl | exact hh
 
 /-! non-vacuity: the D7 schedule shape on the repaired model — Renew (atomic), Unlock to completion —
 ends with the hold released and both answers truthful; and the race at the deadline (fire, then an
-Unlock whose Remove sees the fired timer) answers true while the callback is at C1 -/
+Unlock whose Remove sees the fired timer, then its RemoveLock) answers true while the callback is at C1 -/
 example : (run init [.renew, .startUnlock 1, .unlockStep 1, .unlockStep 1, .unlockStep 1]).map
     (fun s => (s.held, s.saidUnlocked, s.saidRenewed)) = some (false, 1, 1) := by decide
-example : (run init [.fire, .startUnlock 1, .unlockStep 1]).map (fun s => (s.held, s.saidUnlocked, s.cb)) =
-    some (true, 1, .c1) := by decide
+example : (run init [.fire, .startUnlock 1, .unlockStep 1, .unlockStep 1]).map (fun s => (s.held, s.saidUnlocked, s.cb, s.booked)) =
+    some (true, 1, .c1, false) := by decide
 
 end Ldlm.Props.C05
